@@ -13,7 +13,8 @@ fn body(variant: usize) -> Vec<u8> {
     a.label(b"q").root().u16(1).u16(1);
     a.ptr(12).rrfix(T_A, 5, 4).raw(&[1, 2, 3, 4]);
     if variant % 2 == 1 {
-        a.root().u16(T_OPT).u16(4096).u32(0x00ab_8001 ^ ((variant as u32) << 8)).u16(0);
+        // variant 3 carries a non-zero extended rcode and version: getters must not mix them into header fields
+        a.root().u16(T_OPT).u16(4096).u32(if variant == 3 { 0xa5c3_8001 } else { 0x0000_8001 ^ ((variant as u32) << 8) }).u16(0);
     }
     a.done()
 }
